@@ -38,7 +38,7 @@ LAY = {"IN": {"timestamp": 0, "asset": 6, "exchange": 1, "holder": 2, "transacti
 W = 15
 EXS = sorted({a[0] for a in ACCTS})
 HOS = sorted({a[1] for a in ACCTS}, reverse=True)
-ALL_ASSETS = ["B1", "B2", "B3"]
+ALL_ASSETS = ["B1", "B.2", "B3"]      # real tickers contain dots and hyphens (USDC.e, BRK-B): one asset name has a dot
 
 
 def country_facts(entry):
@@ -1032,6 +1032,15 @@ def oracle_c15(case, res, guard=True):
             s_ = sum(g[6] for g in got)
             if abs(s_ - float(unreal)) > 1e-9 * max(1.0, float(unreal)):
                 return f"{a}: unrealized cost {s_} vs cost of everything acquired (from the sheet) minus realized cost {float(unreal)}"
+        # every account whose final balance, recomputed from the sheet rows up to the to-date, is positive — however small — is listed
+        listed = [r for r in res["rows"] if r[0] == "OE" and r[2] == a]
+        if listed:
+            acq, sent, rec = P.flows({"rows": effective_rows(with_cfee(case, a))}, td if case["to"] else None)
+            want = {k: acq[k] + rec[k] - sent[k] for k in set(acq) | set(sent) | set(rec)}
+            want = {k: v for k, v in want.items() if v > 0}
+            have = {r[4]: r[5] for r in listed}
+            if set(have) != set(want) or any(abs(have[k] * U - want[k]) > 0.5 + 1e-9 * want[k] for k in want):
+                return f"{a}: accounts listed {sorted(have.items())} vs positive final balances recomputed from the sheet {sorted((k, v / U) for k, v in want.items())}"
     return None
 
 
